@@ -2,7 +2,9 @@
 PROP = "C13"
 LEVEL = "other"
 EXPLANATION = 'bounded stand-in: generated applications x widths x ANSI/plain, page completeness, hiding, line widths, help routes'
-TARGETS = []
+from . import help_contracts as hc
+TARGETS = [hc.M_AH + ":AbstractHelp._render_argument", hc.M_AH + ":AbstractHelp._render_option",
+           hc.M_APPH + ":ApplicationHelp._render_command"]
 LEMMAS = []
 try:
     from .C13_bounded import bounded, BOUNDED_RULE  # noqa: F401
